@@ -825,15 +825,53 @@ func scenC13(run *vlab.Run, sx, tmp string) {
 		}
 		file := sb.String()
 		args := []string{kind, "--json", "-i", "tap0", "--gwmac", gwMAC, "-a", emptyCache, "--exit-delay", "300ms", "-f", writeFile(tmp, "targets.jsonl", file)}
+		noGw := i%4 == 1 && !manyBad
+		if noGw {
+			// no --gwmac, a default route whose gateway is not in the ARP cache, and a cache that knows every other
+			// address: an entry whose destination has no MAC becomes one error record and no frame
+			var cache strings.Builder
+			var keep []want
+			seenAddr := map[uint32]bool{}
+			for _, w := range wants {
+				if w.addr%2 == 0 {
+					keep = append(keep, w)
+					if !seenAddr[w.addr] {
+						fmt.Fprintf(&cache, "{\"ip\":\"%s\",\"mac\":\"02:aa:00:00:%02x:%02x\"}\n", ipS(w.addr), byte(w.addr>>8), byte(w.addr))
+					}
+					seenAddr[w.addr] = true
+				} else {
+					nBad++
+					causes = append(causes, "no destination MAC")
+				}
+			}
+			wants = keep
+			args = []string{kind, "--json", "-i", "tap0", "-a", writeFile(tmp, "arp.cache", cache.String()), "--exit-delay", "300ms", "-f", writeFile(tmp, "targets.jsonl", file)}
+		}
 		if rng.Intn(2) == 0 {
 			args = append(args, "--exclude", writeFile(tmp, "exclude.txt", "192.0.2.0/24\n"))
 		}
 		run.Case(fmt.Sprintf("c13w%03d", i), map[string]interface{}{"argv": args, "file": file})
-		res := RunCase(sx, &CaseSpec{Args: args, Setup: commonWorld("tap"), Timeout: 60 * time.Second})
+		setup := commonWorld("tap")
+		if noGw {
+			setup = func(w *World) {
+				commonWorld("tap")(w)
+				mustSh("ip", "route", "replace", "default", "via", "10.9.0.254", "dev", "tap0")
+			}
+		}
+		res := RunCase(sx, &CaseSpec{Args: args, Setup: setup, Timeout: 60 * time.Second})
 		run.Eval(1)
-		desc := map[string]interface{}{"argv": args, "file": file}
+		desc := map[string]interface{}{"argv": args, "file": file, "no_gateway_mac": noGw}
 		if !baseChecks(run, res, desc, false) {
 			continue
+		}
+		if noGw {
+			run.Count("wire_runs_without_gateway_mac", 1)
+			for _, f := range res.Frames("tap0") {
+				if d, _, _, ok := decodeProbe(kind, f, oracle.LinkEthernet); ok && d.Eth != nil && d.Eth.Dst == [6]byte{} {
+					run.Violation("frame-to-zero-mac", fmt.Sprintf("a probe was sent to the all-zero MAC address: no MAC is known for its destination (no gateway MAC, not in the cache): %s", strings.Join(args, " ")), desc)
+					break
+				}
+			}
 		}
 		got := map[want]int{}
 		for _, f := range res.Frames("tap0") {
